@@ -41,6 +41,13 @@ int main(int argc, char** argv) {
     RCHECK((e == NONE) == inr(off, size, len), "getv(%zu) at cursor %zu on %zu bytes: %s", size, off, len, e == NONE ? "returned" : "threw");
     RCHECK(e != NONE || (p == d + off && r.where() == off + (adv ? size : 0)), "pointer/cursor");
     RCHECK(e == NONE || r.where() == off, "cursor moved on failure"); }
+  else if (m == "tmpl_get" || m == "tmpl_pget") {
+    bool pos = m == "tmpl_pget"; size_t at = pos ? offset : off; const int8_t* p = nullptr;
+    Exc e = run([&] { p = pos ? &r.pget<int8_t>(at, size) : &r.get<int8_t>(adv, size); });
+    RCHECK((e == NONE) == inr(at, size, len) && (e == NONE || e == OOR), "%s<int8_t>(size=%zu) at %zu on %zu bytes: %s (cursor now %zu)", pos ? "pget" : "get", size, at, len, e == NONE ? "returned" : "threw", r.where());
+    if (e == NONE) { RCHECK((const uint8_t*)p == d + at, "pointer"); if (!pos) RCHECK(r.where() == off + (adv ? size : 0), "cursor %zu", r.where()); }
+    else if (!pos) RCHECK(r.where() == off, "cursor moved on failure");
+  }
   else if (m == "peek") { const void* p = nullptr; Exc e = run([&] { p = r.peek(size); });
     RCHECK((e == NONE) == inr(off, size, len), "peek(%zu) at cursor %zu on %zu bytes: %s", size, off, len, e == NONE ? "returned" : "threw");
     RCHECK(e != NONE || p == d + off, "pointer"); }
